@@ -29,7 +29,7 @@ def cases(rng, tier, X):
         own = F.OWN
         mapper = rng.choice(F.STATIONS)
         eth = rng.choice([None, None, rng.choice(F.STATIONS)])
-        hw = rng.choice(['-', '4100', '410042004300', '41004200000043004400', '00', 'ab' * 64, 'cd' * 63, '4100' * 32, '4100' * 40])
+        hw = rng.choice(['-', '4100', '410042004300', '41004200000043004400', '00', 'ab' * 64, 'cd' * 63, '4100' * 32, '4100' * 40] + F.HWIDS)
         ops = [F.iface_line(0, mac=own, mtu=mtu), F.glob_line(icon=rng.choice([blob(rng, size), 'none']), fname=rng.choice([blob(rng, min(size, 3000)), 'none', '-']), hwid=hw)]
         ops.append('rx 0 ' + F.discover(mapper, 1, 1, eth_src=eth))
         offs = [0, 1, P - 1, P, P + 1, 2 * P - 1, 2 * P, 2 * P + 1, max(size - 1, 0), size, size + 1, 65535]
